@@ -798,6 +798,15 @@ fn guarded_probe(name: &str, bytes: &[u8], st: &mut Stats, kind: &str) -> String
     ans
 }
 
+/// a row for a type of the generated codec table; for state types with unordered maps the same/diff field is not compared
+fn put_codec_row(qa: &mut QA, name: &str, bytes: &[u8], ans: &str) {
+    if UNORDERED_STATE.contains(&name) {
+        qa.put(&format!("deccu {name} {}", hex(bytes)), &ans.replace(" same", " any").replace(" diff", " any"));
+    } else {
+        qa.put(&format!("decc {name} {}", hex(bytes)), ans);
+    }
+}
+
 pub fn run(o: &Opts) -> i32 {
     crate::util::quiet_panics();
     let dir = o.str("out", "/verif/work/c12");
@@ -805,6 +814,13 @@ pub fn run(o: &Opts) -> i32 {
     let mut rng = Rng::new(o.seed());
     let schemas = load_schemas(&o.str("schemas", "/verif/lean/MlsVerif/Gen/schemas.txt"));
     let per_type = o.u64("per_type", if o.thorough() { 3000 } else { 220 });
+    // types the translator resolved to a codec record (hand-written codecs composed with derived ones): compared exactly (`decc`)
+    let codec_names: BTreeSet<String> = std::fs::read_to_string(o.str("codecs", "/verif/lean/MlsVerif/Gen/codecs.txt"))
+        .unwrap_or_default()
+        .lines()
+        .filter_map(|l| l.split('\t').next().map(|x| x.to_string()))
+        .filter(|x| !x.is_empty())
+        .collect();
     let mut st = Stats { fails: vec![], inputs: Default::default(), outcomes: Default::default(), accepted_by_type: Default::default(), max_ratio_milli: 0, max_ratio_case: String::new(), cases: 0 };
     let mut qa = QA::create(&dir, "c12");
     let mut modelled: BTreeSet<String> = BTreeSet::new();
@@ -864,7 +880,7 @@ pub fn run(o: &Opts) -> i32 {
             if ans == "panic" {
                 continue;
             }
-            let verb = if *refined && ans == "err" && !EXACT_REFINED.contains(&name.as_str()) { "decx" } else { "dec" };
+            let verb = if codec_names.contains(name) { "decc" } else if *refined && ans == "err" && !EXACT_REFINED.contains(&name.as_str()) { "decx" } else { "dec" };
             qa.put(&format!("{verb} {name} {}", hex(&bytes)), &ans);
         }
     }
@@ -877,6 +893,7 @@ pub fn run(o: &Opts) -> i32 {
         harvest(rng.next(), &mut corpus, &mut notes);
     }
     let mut by_type: BTreeMap<&str, u64> = BTreeMap::new();
+    let mut codec_rows: BTreeMap<String, u64> = BTreeMap::new();
     let muts = o.u64("mutations", if o.thorough() { 60 } else { 12 });
     let mut seen: BTreeSet<Vec<u8>> = BTreeSet::new();
     for (name, bytes) in &corpus.items {
@@ -892,13 +909,20 @@ pub fn run(o: &Opts) -> i32 {
         if ans != want && !(UNORDERED_STATE.contains(name) && ans == want_unordered) {
             st.fail(format!("{name}: a value the library produced does not round-trip exactly: got `{ans}`, want `{want}`: {}", hex(&bytes[..bytes.len().min(80)])));
         }
-        if modelled.contains(*name) {
+        let in_codecs = codec_names.contains(*name);
+        if in_codecs {
+            put_codec_row(&mut qa, name, bytes, &ans);
+            *codec_rows.entry(name.to_string()).or_default() += 1;
+        } else if modelled.contains(*name) {
             qa.put(&format!("dec {name} {}", hex(bytes)), &ans);
         }
         for _ in 0..muts {
             let (l, v) = mutate(bytes, &mut rng);
             let ans = guarded_probe(name, &v, &mut st, l);
-            if modelled.contains(*name) && ans != "panic" {
+            if in_codecs && ans != "panic" {
+                put_codec_row(&mut qa, name, &v, &ans);
+                *codec_rows.entry(name.to_string()).or_default() += 1;
+            } else if modelled.contains(*name) && ans != "panic" {
                 let refined = schemas.iter().any(|(n, r, _)| n == name && *r);
                 let verb = if refined && ans == "err" && !EXACT_REFINED.contains(name) { "decx" } else { "dec" };
                 qa.put(&format!("{verb} {name} {}", hex(&v)), &ans);
@@ -940,6 +964,7 @@ pub fn run(o: &Opts) -> i32 {
     println!("schema_types_without_probe {}", unprobed.join(","));
     println!("inputs {}", st.inputs.iter().map(|(k, v)| format!("{k}={v}")).collect::<Vec<_>>().join(","));
     println!("outcomes {}", st.outcomes.iter().map(|(k, v)| format!("{k}={v}")).collect::<Vec<_>>().join(","));
+    println!("codec_model_rows {}", codec_rows.iter().map(|(k, v)| format!("{k}={v}")).collect::<Vec<_>>().join(","));
     println!("produced_values {}", by_type.iter().map(|(k, v)| format!("{k}={v}")).collect::<Vec<_>>().join(","));
     let low: Vec<String> = st.accepted_by_type.iter().filter(|(_, (a, n))| *n > 50 && *a * 10 < *n).map(|(k, (a, n))| format!("{k}={a}/{n}")).collect();
     println!("low_acceptance_types {}", low.join(","));
